@@ -123,12 +123,21 @@ Theorem C14_disk_no_raise : forall wl ls, (wl = true -> 1 <= ls) ->
 Proof. exact disk_no_raise. Qed.
 Print Assumptions C14_disk_no_raise.
 
+(* the outputs are exactly those of: files = ONE list of (key, value) in order of writing, bounded by max_size by
+   dropping the oldest, in front of it (if with_lru_cache) the recency list of lru_cache_size entries; `in`/`get`
+   look in the front first, `len` counts files, Reopen keeps the files and empties the front *)
+Theorem C14_disk_refines : forall wl ls, (wl = true -> 1 <= ls) ->
+  forall D m0 (ops : list (dop D)),
+  run_ops (disk_step wl ls true) (disk_open [] 0 m0) ops = run_ops (disk_spec_step wl ls) (mkDS [] [] m0) ops.
+Proof. exact disk_refines. Qed.
+Print Assumptions C14_disk_refines.
+
 (* after ANY history (incl. re-opening with a smaller max_size) a put leaves at most max_size files and every
    file it deleted is older than every file it kept *)
 Theorem C14_disk_policy : forall wl ls, (wl = true -> 1 <= ls) ->
   forall D m0 (ops : list (dop D)) k v,
   let st := final (disk_step wl ls true) (disk_open [] 0 m0) ops in
-  let written := aset k (v, d_clock st) (d_files st) in
+  let written := adel k (d_files st) ++ [(k, (v, d_clock st))] in
   let st' := fst (disk_put wl ls true st k v) in
   incl (d_files st') written
   /\ (forall n, d_max st = Some n -> length (d_files st') <= n)
